@@ -469,12 +469,6 @@ func readerScenario(kind int, r *rand.Rand) (string, string) {
 				time.Sleep(time.Millisecond)
 				s.cancelCall(cm)
 			}
-			defer func(cm int) {
-				// a synchronous commit queued while the generation ends is only released by its context
-				if !s.wait(cm, 50*time.Millisecond) {
-					s.cancelCall(cm)
-				}
-			}(cm)
 		}
 		if r.Intn(3) == 0 {
 			c2 := s.call("fetch")
@@ -484,6 +478,11 @@ func readerScenario(kind int, r *rand.Rand) (string, string) {
 		}
 		s.closeBegin()
 		<-waitOr(s.closed)
+		if cm != 0 && !s.wait(cm, 50*time.Millisecond) {
+			// a synchronous commit queued while the generation ends is only released by its context
+			s.cancelCall(cm)
+			s.wait(cm, watchdog())
+		}
 		c3 := s.call("fetch")
 		s.wait(c3, watchdog())
 		c4 := s.call("commit")
